@@ -10,10 +10,12 @@ field-2 routing of `vbi_decode_caption` and of `xds_separator` (src/caption.c). 
 take two control-flow facts of the C code as a parameter (`rk`: a refused header leaves the
 interrupted packet alone; `ec`: the parity-error branch of `xds_separator` clears `cc->curr_sp`);
 `translate/gen_xds.py` reads their current values from the source (`Gen.Xds.demuxRejectKeepsCurrent`,
-`Gen.Xds.sepErrClearsCurr`, both `false` on the unchanged tree), and the model driver runs with
-those.  Theorems that hold either way quantify over the flag; where the property fails for the
+`Gen.Xds.sepErrClearsCurr`; both were `false` on the original tree and are `true` since the repairs
+1c0ef8d and 34b85fe), and the model driver runs with those.  A third generated fact,
+`Gen.Xds.sepNuidCompared` (commit c11abb5: the decoder reset on a repeated network name is guarded
+by `sum != n->nuid`), only enters `Sep.netDecode`; no theorem below depends on its value.  Theorems that hold either way quantify over the flag; where the property fails for the
 current value there is a proved counterexample on a concrete stream (the same stream is replayed
-on the C code from corpus/C09/) next to the theorem for the repaired control flow.
+on the C code from corpus/C09/ - as regression once the repair is in) next to the theorem for the repaired control flow.
 
 Histories: `Demux.run rk Demux.init hist` is the state after feeding an arbitrary list of raw
 byte pairs to a fresh demultiplexer, so a statement "for all `hist`" covers every reachable state.
